@@ -334,7 +334,11 @@ theorem orderValue_buy_eq (ins : SzIns) (hk : ins.isKSH = false) (hlot : 0 < ins
         (R.ofInt (valueLoop price (min v cash) cost ins.lot hlot (roundOrderQty ins (R.ofInt (R.decQuot10 (min v cash) price)))))
         posQty := by
   unfold orderValue
-  simp only [gt_iff_lt, hv, if_true, pymin_eq_min, hc, hk, Bool.false_eq_true, if_false, hlot, dite_true]
+  have hcash : (0 : Rat) < cash := (lt_min_iff.mp hc).2
+  have hmax : R.pymax cash 0 = cash := by
+    unfold R.pymax
+    rw [if_neg (not_lt.2 hcash.le)]
+  simp only [gt_iff_lt, hv, if_true, hmax, pymin_eq_min, hc, hk, Bool.false_eq_true, if_false, hlot, dite_true]
 
 theorem orderValue_sell_eq (ins : SzIns) (v price cash : R) (hv : v < 0)
     (closable posQty : Int) (cost : Int → R) :
@@ -413,6 +417,22 @@ theorem order_value_buy_affordable (ins : SzIns) (hk : ins.isKSH = false) (hlot 
     exact absurd h (by simp)
   · exact Or.inl (order_value_buy_affordable_of_exact_result ins hk hlot v price cash hv closable posQty cost q isBuy h hc
       (hex _ hp hf)).2.2
+
+/-- with no available cash (zero or NEGATIVE) a buy request creates no order — in particular it never turns into a sale
+(the original code capped the amount by a negative cash balance and then sold: repaired) -/
+theorem order_value_buy_none_without_cash (ins : SzIns) (v price cash : R) (hv : 0 < v) (hc : cash ≤ 0)
+    (closable posQty : Int) (cost : Int → R) (hq : R.decQuot10 0 price = 0) :
+    orderValue ins v price cash closable posQty cost = orderShares ins (R.ofInt 0) posQty := by
+  unfold orderValue
+  have hmax : R.pymax cash 0 = 0 := by
+    unfold R.pymax
+    rcases lt_or_eq_of_le hc with h | h
+    · rw [if_pos h]
+    · rw [if_neg (by rw [h]; exact lt_irrefl _), h]
+  have hmin : R.pymin v 0 = 0 := by
+    unfold R.pymin
+    rw [if_pos hv]
+  simp only [gt_iff_lt, hv, if_true, hmax, hmin, lt_irrefl, if_false, hq]
 
 /-- `order_value` with a non-positive affordable amount creates no order -/
 theorem order_value_buy_none_when_unaffordable (ins : SzIns) (hk : ins.isKSH = false) (hlot : 0 < ins.lot) (v price cash : R)
